@@ -163,7 +163,7 @@ def check(prog, rep, tier):
                         rep.bad("C19.clear-initial", f"{cn}.clear", f"{fld} not assigned on a path", f"clear() leaves self.{fld} unassigned on some path", clr.where())
                         break
                     want = init_vals.get(fld)
-                    if want is None or _same_initial(v, want):
+                    if want is None or _same_initial(v, want, fld):
                         continue
                     rep.bad("C19.clear-initial", f"{cn}.clear", f"{fld} = {nshow(v)}",
                             f"clear() leaves self.{fld} = {nshow(v)}, the constructor starts with {sorted(nshow(w) for w in want)}", clr.where())
@@ -219,10 +219,20 @@ def _init_values(prog, cn):
     return out
 
 
-def _same_initial(v, wants) -> bool:
+def _same_initial(v, wants, fld=None) -> bool:
     v = strip_epochs(v)
     if v in wants:
         return True
+    # a fresh typed block of the array's present length: the same allocation as the constructor's (length is kept by every writer)
+    if fld is not None and v[0] == "nary" and v[1] == "*" and len(v[2]) == 2:
+        arr = [x for x in v[2] if x[0] == "newb" and x[1] == "array"]
+        n = [x for x in v[2] if not (x[0] == "newb" and x[1] == "array")]
+        if len(arr) == 1 and len(n) == 1 and n[0] == ("call", ("g", "len"), (("f", SELF, fld, 0),), ()):
+            for w in wants:
+                if w[0] == "nary" and w[1] == "*":
+                    warr = [x for x in w[2] if x[0] == "newb" and x[1] == "array"]
+                    if len(warr) == 1 and warr[0][3] == arr[0][3]:
+                        return True
     # fresh empty containers compare by kind
     if v[0] == "newb":
         return any(w[0] == "newb" and w[1] == v[1] and not v[3] and not w[3] for w in wants)
